@@ -133,6 +133,7 @@ type Meta struct {
 	Samples            []any          `json:"samples"`
 	Shards             []string       `json:"shards"`
 	ShardSize          int            `json:"shard_size"`
+	ShardStarts        []int          `json:"shard_starts"` // index of the first case of each shard
 }
 
 func WriteCases(p *Prop, cases []Case, out string, meta *Meta) error {
@@ -178,16 +179,20 @@ func WriteCases(p *Prop, cases []Case, out string, meta *Meta) error {
 			}
 		}
 	}
-	for k := 0; k*shard < len(cases); k++ {
+	// shards hold at most `shard` cases and at most ~120 KB of Coq text, so one heavy case (a 128 KiB
+	// input) does not serialise behind its neighbours: shards are evaluated in parallel
+	const maxBytes = 120 << 10
+	for lo, k := 0, 0; lo < len(cases); k++ {
+		hi, sz := lo, 0
+		for hi < len(cases) && hi-lo < shard && (hi == lo || sz+len(cases[hi].Coq) <= maxBytes) {
+			sz += len(cases[hi].Coq)
+			hi++
+		}
 		name := fmt.Sprintf("cases_%03d.v", k)
 		var sb strings.Builder
 		sb.WriteString(p.Header)
 		sb.WriteString("\nDefinition cases := [\n")
-		hi := (k + 1) * shard
-		if hi > len(cases) {
-			hi = len(cases)
-		}
-		for i := k * shard; i < hi; i++ {
+		for i := lo; i < hi; i++ {
 			sb.WriteString("  ")
 			sb.WriteString(cases[i].Coq)
 			if i+1 < hi {
@@ -200,6 +205,8 @@ func WriteCases(p *Prop, cases []Case, out string, meta *Meta) error {
 			return err
 		}
 		meta.Shards = append(meta.Shards, name)
+		meta.ShardStarts = append(meta.ShardStarts, lo)
+		lo = hi
 	}
 	mb, _ := json.MarshalIndent(meta, "", " ")
 	return os.WriteFile(filepath.Join(out, "meta.json"), mb, 0o644)
